@@ -85,6 +85,10 @@ def jobs(tier):
                         continue
                     if tier == "quick" and (endian, hlen) == (0, 3):
                         continue
+                    if big and (endian, hlen) not in ((0, 1), (1, 1), (1, 2)):
+                        continue
+                    if c in (6, 7) and (mode != 1 or hlen != 1):
+                        continue    # p=251 curves: public-key verifier, field-size hash only (about 1000 s per job)    # the three large curves (jobs of 1000+ s each) get the field-size hash in both byte orders and one long _le hash; [measured: the full product would run > 3 h on 12 cores]
                     out.append(job(c, mode, gost, endian, hlen, timeout=1500 if big else None, cost=10 if big else 1))
     for gost in (0, 1):
         for fi in (1, 2, 3):
